@@ -7,14 +7,15 @@
      any droppable flags) sent by a publishing client, the server raises exactly one event per item, in order, with
      identical payload bytes and timestamp, under the connected application name and the stream key, whatever the
      acknowledgement windows; C02_play_sequence: the same from the server to a playing client.
-   PARTIAL: (1) these theorems deliver each packet in one input call; arbitrary fragmentation is covered by C15 for the
-   deserializer layer and, for whole sessions, by the correspondence check (canonical scenarios under byte-wise, fixed and
-   random fragmentation and interleaving of the two directions, with the oracles C02.* on the real events);
-   (2) the command phases (connect / createStream / publish / play / stop) are exercised, not proved: the composed model
-   Model/Interop.v (extracted and compared with the two real sessions wired back to back on every case) runs them, and
-   scenario_publish / scenario_play are computed instances reaching the states the theorems start from. *)
+   - C02_publish_any_partition / C02_play_any_partition: the same when the sender's packets are cut into input calls in ANY
+     way (composition with C15 for sessions): exactly one event per item, in order, byte-exact, no error.  The two directions
+     are independent streams, so every interleaving of deliveries is covered.
+   PARTIAL: the command phases (connect / createStream / publish / play / stop) are exercised, not proved: the composed model
+   Model/Interop.v (extracted and compared with the two real sessions wired back to back on every case) runs them under
+   byte-wise / fixed / mixed fragmentation with the oracles C02.* on the real events, and scenario_publish / scenario_play
+   are computed instances reaching the states the theorems start from; metadata items are covered by the same runs. *)
 From RML Require Import Model.Base Model.Chunk Model.ChunkSer Model.ChunkDe Model.Messages Model.SessionCommon Model.Server Model.Client
-  Model.Interop Proofs.ChunkSerProofs Proofs.InteropProofs.
+  Model.Interop Proofs.ChunkSerProofs Proofs.InteropProofs Proofs.SessionPartition Proofs.ClientPartition Proofs.InteropPartition.
 From Coq Require Import String.
 Local Open Scope N_scope.
 
@@ -40,6 +41,23 @@ Theorem C02_play_sequence : forall items s c clock sid,
     Some (s', c', map (fun i => match i with Item video data ts _ => cmedia_event video data ts end) items).
 Proof. exact play_sequence_delivered. Qed.
 
+Theorem C02_publish_any_partition : forall items c s clock sid app key pieces,
+  Link (cl_ser c) (sv_de s) -> ser_ok (sv_ser s) -> publishing_stream c = Ok sid -> sid < 4294967296 ->
+  sv_connected s = true -> publishing_key s sid = Some (app, key) -> Forall item_wf items ->
+  exists c' packets s',
+    client_packets c items = Some (c', packets) /\
+    (List.concat pieces = List.concat packets ->
+     feed_server s pieces clock [] = (s', map (fun i => match i with Item video data ts _ => media_event video app key data ts end) items, VOk)).
+Proof. exact publish_sequence_any_partition. Qed.
+
+Theorem C02_play_any_partition : forall items s c clock sid pieces,
+  Link (sv_ser s) (cl_de c) -> ser_ok (cl_ser c) -> playing_on c sid -> sid < 4294967296 -> Forall item_wf items ->
+  exists s' packets c',
+    server_packets s sid items = Some (s', packets) /\
+    (List.concat pieces = List.concat packets ->
+     feed_client c pieces clock [] = (c', map (fun i => match i with Item video data ts _ => cmedia_event video data ts end) items, CVOk)).
+Proof. exact play_sequence_any_partition. Qed.
+
 Example C02_scenario_publish :
   filter is_media_or_lifecycle (server_events_of (ex_run ex_publish_ops)) =
   [ EvConnectionRequested 0 (str "live");
@@ -64,3 +82,5 @@ Print Assumptions C02_link_preserved.
 Print Assumptions C02_link_initially.
 Print Assumptions C02_publish_sequence.
 Print Assumptions C02_play_sequence.
+Print Assumptions C02_publish_any_partition.
+Print Assumptions C02_play_any_partition.
